@@ -202,8 +202,16 @@ impl<'tcx> Cx<'tcx> {
                 ("fields", jarr(fields)),
             ]));
         }
+        let gens = self.tcx.generics_of(def.did());
+        let mut gnames = vec![];
+        for p in gens.own_params.iter() {
+            if matches!(p.kind, ty::GenericParamDefKind::Type { .. }) {
+                gnames.push(jstr(p.name.as_str()));
+            }
+        }
         let j = jobj(vec![
             ("name", jstr(&name)),
+            ("generics", jarr(gnames)),
             ("kind", jstr(kind)),
             ("local", jbool(def.did().is_local())),
             ("variants", jarr(variants)),
